@@ -95,6 +95,7 @@ REFINE = {
 }
 
 EXTRA = {
+ "C07": " Partial path: SatDC07Partial.sat_C07_partial extends the liveness theorem to LiqSubCase OR LiqPartialCase (forward simulation of the partial liquidation); every clause of LiqPartialCase has a kernel-evaluated world in which exactly that clause fails and the liquidation fails although the property's premises hold (the exact condition is |realised PnL| + penalty <= margin, not the sign of the ratio).",
  "C08": " Every fault point: Model/Fault.lean is the dispatcher with one injected failure (countdown over every dispatched message); FaultAtomic.fault_fails_tx proves for every k, world and transaction of every kind that a transaction which succeeds although fault k was armed never reached it and has the normal result (a fired fault fails the whole call; stepF_atomic: nothing changes), fault_profile gives the exact profile; the harness's fault mode and the theorem speak about the same indices (the driver compares, per engine transaction and index, whether the model's tree reaches the index and whether the implementation's sub-call exists).",
  "C14": " Registry clause Spec.C14.checkReg (a successful RemoveVamm / AddVamm changes exactly the named entry, nothing else changes the registry): SatExtra3.sat_C14_reg, reachable_extra3, history_extra3.",
  "C18": " Feed clause Spec.C18F.recordedOk (an accepted submission is exactly one new round with the submitted values, older rounds untouched; latest / n-back answers are judged against what was SUBMITTED): C18FRec.appendPrice_recorded / appendMultiple_recorded.",
@@ -113,7 +114,9 @@ def refine_text(pid):
                 "of direction B); SatGReverse.twin_open_reverse_closeonly / twin_open_reverse_reopen cover reversing orders, the latter under NetsOKQ, which is exact "
                 "(reopen_exact: given a successful cw20 run the native run with the pulled amount succeeds iff NetsOKQ; F10a is the kernel-evaluated violation); "
                 "the recorded findings F10a/b/c and one more divergence are kernel-evaluated witness worlds (SatGWitness). Known-finding signatures carry the "
-                "reference model's verdict on the same pair of calls, so a divergence the model does not predict is reported. Not covered: a history-level statement.")
+                "reference model's verdict on the same pair of calls, so a divergence the model does not predict is reported. History level: SatGSim (ledger extensionality: a native deployment reads its ledger only "
+                "through balances; Sim is a simulation relation, sim_step_<flow> for all ten flows) and SatGHistory.twin_history / twin_history_C13 / twin_history_steps: along any history whose steps satisfy StepOK the "
+                "native deployment attaching exactly what the cw20 step pulled stays in step (same positions, vAMMs, engine state, every balance).")
     if pid not in REFINE:
         return ""
     return (f" Refinement layer: {REFINE[pid]} proves, for every world, block, sender, funds and transaction, that the observation record of the "
